@@ -42,6 +42,14 @@ class _Return(Exception):
         self.value = value
 
 
+class _Break(Exception):
+    pass
+
+
+class _Continue(Exception):
+    pass
+
+
 CJ = sp.Function("cj")  # complex conjugation marker (kept uninterpreted on purpose)
 
 
@@ -311,6 +319,9 @@ NP_FUNCS: dict[str, Callable] = {
     "broadcast_arrays": lambda *a: [np.asarray(x, dtype=object) for x in np.broadcast_arrays(*[np.asarray(x, dtype=object) for x in a])],
     "reshape": lambda a, shape: np.reshape(np.asarray(a, dtype=object), shape),
     "ndindex": lambda *shape: list(np.ndindex(*shape)),
+    "ceil": lambda a: _elementwise(sp.ceiling, a),
+    "floor": lambda a: _elementwise(sp.floor, a),
+    "sqrt": lambda a: _elementwise(sp.sqrt, a),
     "abs": lambda a: _elementwise(sp.Abs, a),
     "absolute": lambda a: _elementwise(sp.Abs, a),
     "where": lambda c, a, b: np.where(np.asarray(_as_bool(c)), np.asarray(a, dtype=object), np.asarray(b, dtype=object)),
@@ -500,10 +511,38 @@ class NpSem:
                 it = list(it._attrs["__iter__"]())
             if not isinstance(it, (range, list, tuple)):
                 self.fail(s, f"loop over a value of unknown extent ({it!r})")
+            broke = False
             for v in it:
                 self.assign(s.target, v, scope)
-                self.exec_block(s.body, scope)
-            self.exec_block(s.orelse, scope)
+                try:
+                    self.exec_block(s.body, scope)
+                except _Break:
+                    broke = True
+                    break
+                except _Continue:
+                    continue
+            if not broke:
+                self.exec_block(s.orelse, scope)
+        elif isinstance(s, ast.While):
+            n_iter = 0
+            broke = False
+            while self.truth(s.test, scope):
+                n_iter += 1
+                if n_iter > 10000:
+                    raise Raised("loop does not terminate within 10000 iterations")
+                try:
+                    self.exec_block(s.body, scope)
+                except _Break:
+                    broke = True
+                    break
+                except _Continue:
+                    continue
+            if not broke:
+                self.exec_block(s.orelse, scope)
+        elif isinstance(s, ast.Break):
+            raise _Break()
+        elif isinstance(s, ast.Continue):
+            raise _Continue()
         elif isinstance(s, ast.Return):
             raise _Return(self.eval(s.value, scope) if s.value is not None else None)
         elif isinstance(s, ast.Raise):
@@ -648,7 +687,7 @@ class NpSem:
             return scope.get(node.id)
         except KeyError:
             pass
-        if node.id in ("range", "len", "isinstance", "tuple", "list", "int", "float", "abs", "min", "max", "sum", "enumerate", "zip", "slice", "str", "any", "all", "sorted", "reversed", "bool"):
+        if node.id in ("range", "len", "isinstance", "tuple", "list", "int", "float", "abs", "min", "max", "sum", "enumerate", "zip", "slice", "str", "any", "all", "sorted", "reversed", "bool", "round"):
             return node.id
         if node.id in ("None", "True", "False"):
             return {"None": None, "True": True, "False": False}[node.id]
@@ -928,6 +967,17 @@ class NpSem:
                 return list(reversed(list(args[0]._attrs["__iter__"]()) if isinstance(args[0], Stub) else list(args[0])))
             if f == "bool":
                 return bool(args[0])
+            if f == "round":
+                from fractions import Fraction
+
+                v = args[0]
+                if isinstance(v, sp.Rational):
+                    v = Fraction(int(v.p), int(v.q))
+                elif isinstance(v, sp.Basic):
+                    if not v.is_number:
+                        self.fail(node, "round of a symbolic value")
+                    v = float(v)
+                return round(v, *args[1:])  # python: ties to even
         if isinstance(f, Opaque):
             return Opaque(f"{f.name}(...)")
         if isinstance(f, KindRef):
